@@ -251,6 +251,16 @@ def encode_prefix(pfx):
     return bytes([plen]) + socket.inet_aton(ip)[:nbytes]
 
 
+def encode_prefix_dirty(pfx, fill=0xFF):
+    """Same prefix, but the trailing (padding) bits of the last octet are set: RFC 4271 4.3 says
+    their value is irrelevant."""
+    raw = bytearray(encode_prefix(pfx))
+    plen = raw[0]
+    if plen % 8 and len(raw) > 1:
+        raw[-1] |= (0xFF >> (plen % 8)) & fill
+    return bytes(raw)
+
+
 def decode_prefixes(data):
     out = []
     i = 0
@@ -313,10 +323,12 @@ def encode_attrs(attrs, as4):
     return out
 
 
-def encode_update(withdrawn=(), attrs=None, nlri=(), as4=False, raw_attrs=None):
-    w = b"".join(encode_prefix(p) for p in withdrawn)
+def encode_update(withdrawn=(), attrs=None, nlri=(), as4=False, raw_attrs=None, dirty=None):
+    """dirty: optional fill value -> prefixes are encoded with non-zero padding bits."""
+    enc = encode_prefix if dirty is None else (lambda p: encode_prefix_dirty(p, dirty))
+    w = b"".join(enc(p) for p in withdrawn)
     a = raw_attrs if raw_attrs is not None else encode_attrs(attrs or {}, as4)
-    n = b"".join(encode_prefix(p) for p in nlri)
+    n = b"".join(enc(p) for p in nlri)
     body = struct.pack("!H", len(w)) + w + struct.pack("!H", len(a)) + a + n
     return frame(UPDATE, body)
 
